@@ -134,6 +134,45 @@ theorem C07_poisoned_nonzero_exit (fate : Item → Fate) (size : Item → Nat) (
   have := hi.joined j (by rw [hd]; simp only; exact hjn)
   rw [this] at hj; cases hj
 
+/-- After a death inside `add_results` the result map is never written again: a worker that comes
+to take the poisoned mutex (`lock().unwrap()`) dies there – its item is lost, `merged` and the write
+log stay as they are. -/
+theorem C07_lock_after_poison_dies (fate : Item → Fate) (s : State) (w : Nat) (x : Item)
+    (hp : s.poisoned = true) (hb : s.workers.getD w .exited = .batch x) :
+    (step fate s (.lock w)).workers.getD w .exited = .dead ∧
+    (step fate s (.lock w)).merged = s.merged ∧ (step fate s (.lock w)).log = s.log ∧
+    (step fate s (.lock w)).lost = s.lost ++ [x] := by
+  have hw : w < s.workers.length := getD_ne_default_lt (by rw [hb]; simp)
+  simp only [step, hb, hp, if_true, and_true]
+  exact getD_set_eq _ _ _ _ hw
+
+/-- **After a death inside `add_results` the result map is frozen.** From a reachable state in which
+the mutex is poisoned, no continuation of the run – any steps of any threads, any further faults –
+writes another entry or lets another batch in: the half-written map stays as it is (and is never
+reported: `C07_poisoned_nonzero_exit`), every worker that still comes to merge dies
+(`C07_lock_after_poison_dies`). -/
+theorem C07_no_write_after_poison (fate : Item → Fate) (size : Item → Nat) (n : Nat) (rx : Bool)
+    (items : List Item) (tr tr' : List Step) (s s' : State) (h : Run fate size (init n rx items) tr s)
+    (hp : s.poisoned = true) (h' : Run fate size s tr' s') :
+    s'.log = s.log ∧ s'.merged = s.merged ∧ s'.poisoned = true :=
+  run_frozen h' (run_mutexInv h (mutexInv_init n rx items))
+    (run_poisonQuiet h (poisonQuiet_init n rx items)) hp
+
+/-- The run the hooked binary logs for `GRCOV_VERIF_FAULT=panic_in_merge:Consumer_0 --threads 2` on
+six inputs (tools/review_probes2/merge-pipe/real_binary_probes.sh §2; the `faults-in-merge` stream of
+harness/c07 replays such logs through the trace validator): worker 0 dies holding the mutex, worker
+1 dies on the poisoned mutex, the producer has finished, the first stop marker cannot be sent, and
+`main` exits with status 1. With ONE thread the producer's next send fails instead. -/
+example : ∃ s, replay (fun _ => .ok) (fun _ => 1) (init 2 false [1, 2, 3, 4, 5, 6])
+    [.prodSend, .prodSend, .prodSend, .recv 1, .recv 0, .prodSend, .prodSend, .prodSend,
+     .parsed 0, .lock 0, .workerDies 0, .parsed 1, .lock 1, .prodExit, .main, .main, .main] = some s
+    ∧ s.mainPc = .done 1 ∧ s.poisoned = true := by
+  refine ⟨_, rfl, ?_, ?_⟩ <;> decide
+example : ∃ s, replay (fun _ => .ok) (fun _ => 1) (init 1 false [1, 2, 3, 4])
+    [.prodSend, .recv 0, .parsed 0, .lock 0, .prodSend, .workerDies 0, .prodSend, .main] = some s
+    ∧ s.mainPc = .done 1 ∧ s.poisoned = true ∧ s.prodDead = true := by
+  refine ⟨_, rfl, ?_, ?_, ?_⟩ <;> decide
+
 /-- non-vacuity of the fault steps: a worker that panics before it ever receives anything (N = 2,
 the other worker does all the work) ends the run with status 1 and every item merged; a producer
 that panics after its last send ends it with status 1 as well. -/
